@@ -215,7 +215,9 @@ def tiling_case(K):
 
 def makestep_case():
     """the maneuver clause of the real KeplerNum._make_step (Euler tableau, derivative stubbed)"""
-    ins = [(k, "real") for k in RV + ["d1", "d2", "d3", "t0", "d"] + [f"k{i}" for i in range(6)]] + [("h", "pos")]
+    # H: nominal step of the propagator, h: the step actually taken (an adaptive method or the last step before a target
+    # date takes a shorter one): the impulse window is that of the step taken
+    ins = [(k, "real") for k in RV + ["d1", "d2", "d3", "t0", "d"] + [f"k{i}" for i in range(6)]] + [("h", "pos"), ("H", "pos")]
 
     def run(env, v):
         kn = env.mod("beyond.propagators.keplernum")
@@ -224,7 +226,7 @@ def makestep_case():
         if env.symbolic:
             prop = kn.KeplerNum.__new__(kn.KeplerNum)
             prop.method = "euler"
-            prop.step = SymTD(v["h"])
+            prop.step = SymTD(v["H"])
             prop.tol = None
             m = man.ImpulsiveMan(SymDate(v["d"]), [v["d1"], v["d2"], v["d3"]])
             orb = carrier(_rv(v), date=SymDate(v["t0"]), frame="EME2000", maneuvers=[m])
@@ -236,7 +238,7 @@ def makestep_case():
         from beyond.dates import Date
         from beyond.orbits import Orbit
         ref0 = Date(2020, 1, 1)
-        prop = kn.KeplerNum(_td(seconds=v["h"]), [], method="euler")
+        prop = kn.KeplerNum(_td(seconds=v["H"]), [], method="euler")
         m = man.ImpulsiveMan(ref0 + _td(seconds=v["d"]), [v["d1"], v["d2"], v["d3"]])
         orb = Orbit(_rv(v), ref0 + _td(seconds=v["t0"]), "cartesian", "EME2000", prop)
         orb.maneuvers = [m]
